@@ -35,7 +35,13 @@ def servicesEndHandle : Nat → List ServiceDecl → Nat
 def NoIncludes (d : ServerDecl) : Prop := ∀ s ∈ d, s.includes = []
 
 /-- a declaration that compiles (static_asserts hold, at least one service) and whose handles fit
-    into 16 bits without the `std::uint16_t` computations of the templates wrapping -/
+    into 16 bits without the `std::uint16_t` computations of the templates wrapping.
+    `fits` (running end handle = last attribute handle + 1 ≤ 0xFFFF, i.e. last handle ≤ 0xFFFE) is
+    NOT a legitimate precondition of the library: a declaration whose last attribute has handle
+    0xFFFF compiles (g++ only warns -Woverflow), `end_handle` wraps to 0 and `first_index_by_handle`
+    / `index_by_handle` become invalid for every handle behind the previous service.  Confirmed on
+    the real code (harness/attdisc.cpp `topserver`), known findings `C02/C03:last-handle-0xffff:*`
+    (docs/attdisc.md §0xFFFF); the theorems are about the declarations for which the mapping works. -/
 structure ServerDecl.WF (d : ServerDecl) : Prop where
   nonempty : d ≠ []
   asserts  : servicesWF 1 d
